@@ -217,7 +217,8 @@ func SeedStore(c *vs.Case, e *Env, o SeedOpts) []Seed {
 			obj = withLastAppliedOf(obj)
 		}
 		if deleting {
-			meta["finalizers"] = []any{"example.com/hold"}
+			// (on the object as it is now: withLastAppliedOf returned a copy)
+			obj["metadata"].(map[string]any)["finalizers"] = []any{"example.com/hold"}
 		}
 		created, err := e.W.Sim.ExtCreate(ch.Resource, obj)
 		if err != nil {
